@@ -158,8 +158,13 @@ def check(run):
                 pv = b.provenance(sh)
                 calls = set(x.rsplit("::", 1)[-1] for x in pv["calls"])
                 det = {"calls": sorted(calls)}
-                ok = "unwrap_or_else" in calls and ("and_then" in calls) and ("map" in calls) and "parent" in (pv["params"] | pv["locals"])
-        o.check(ok, "begin_block|seed-chain", "state_hash = parent lookup (.and_then/.map) .unwrap_or_else(parent block hash / genesis)", b.span, det)
+                names = set(b.local_name(i) for i in range(1, b.argc + 1))
+                pname = b.local_name(3)
+                reads_parent_commitment = any(n == "state_hash" and ow.endswith("BlockExec") for (ow, n) in pv["fields"]) or any(
+                    n == "state_hash" and ow.endswith("BlockExec") for fb2 in fam for (_b2, ow, n, _sp2) in fb2.field_reads())
+                ok = pname in pv["params"] and reads_parent_commitment and any(x.endswith("BTreeMap::get") for x in pv["calls"] | set(
+                    c2.name for fb2 in fam for c2 in fb2.calls()))
+        o.check(ok, "begin_block|seed-chain", "the new block's state_hash is derived from the parent argument through a lookup of the parent's BlockExec.state_hash (any spelling)", b.span, det)
         reads = set()
         consts = set()
         for fb in fam:
@@ -217,23 +222,35 @@ def check(run):
             ok = first == ["Known"] and second == ["Pending"]
         o.check(ok, "%s|lookup-order" % fn, "%s looks the block up as Known(block id) first and only then as Pending(slot)" % fn, oe[0][1].span if oe else "", det)
     for b in bb_:
-        uo = [c for c in b.calls() if c.name.endswith("Option::unwrap_or_else")]
-        ok = len(uo) == 1
-        det = {}
-        if ok:
-            t = b.operand_term(uo[0].args[1])
-            cls = [x for x in mir.walk(t) if isinstance(x, tuple) and x and x[0] == "closure"]
-            ok = len(cls) >= 1
-            if ok:
-                caps = dict(cls[0][2])
-                from_parent = [n for n, ot in caps.items() if K.mentions_arg(b, ot, 3)]
-                cb = prog.bodies.get(cls[0][1])
-                gen = cb is not None and any(str(x[1] if x[0] == "cref" else (x[3] if len(x) > 3 else "")).endswith("GENESIS_BLOCK_HASH")
-                                             for c2 in cb.calls() for a in c2.args for x in mir.consts_in(cb.operand_term(a)))
-                uses = cb is not None and any(K.mentions(cb.operand_term(a), lambda x: x[0] == "upvar" and x[1] in from_parent) for c2 in cb.calls() for a in c2.args)
-                det = {"captures_from_parent": from_parent, "mentions_genesis": gen, "uses_parent": uses}
-                ok = bool(from_parent) and gen and uses
-        o.check(ok, "begin_block|fallback-parent-hash", "the fallback seed is computed from the parent argument (its block hash; GENESIS_BLOCK_HASH only without a parent)", b.span, det)
+        fam = [fb for d, fb in prog.bodies.items() if d == b.defpath or d.startswith(b.defpath + "::{closure")]
+        # where GENESIS_BLOCK_HASH enters: it must be the alternative of the parent's own block hash - either an argument of a
+        # combinator applied to the parent option itself (map_or / map_or_else / unwrap_or ..), or assigned only when parent is None
+        uses = []
+        for fb in fam:
+            us = D.upvar_sources(prog, fb)
+            from_parent = set(n for n, pv in us.items() if b.local_name(3) in pv["params"]) if fb is not b else set()
+
+            def is_parent(t, fb=fb, from_parent=from_parent):
+                t = K.peel(t)
+                if fb is b:
+                    return K.is_arg(b, t, 3) or (isinstance(t, tuple) and t and t[0] in ("param", "local") and b.local_name(3) in fb.provenance(t)["params"] and not fb.provenance(t)["calls"])
+                return isinstance(t, tuple) and t and t[0] == "upvar" and t[1] in from_parent
+
+            def has_gen(t):
+                return any(str(x[1] if x[0] == "cref" else (x[3] if len(x) > 3 else "")).endswith("GENESIS_BLOCK_HASH") for x in mir.consts_in(t))
+            for c in fb.calls():
+                ts = [fb.operand_term(a) for a in c.args]
+                if any(has_gen(t) for t in ts[1:]) or (ts and has_gen(ts[0]) and c.name.rsplit("::", 1)[-1] not in ("as_hash", "clone", "deref", "as_ref")):
+                    uses.append(("combinator", c.name.rsplit("::", 1)[-1], bool(ts) and is_parent(ts[0]), c.span))
+            for (bb2, i2, dst2, rv2, sp2) in fb.assignments():
+                t = fb.rvalue_term(rv2)
+                if rv2["k"] in ("use", "ref") and has_gen(t) and not any(u[3] == sp2 for u in uses):
+                    g = any(a[0] == "is_some" and a[2] is False and is_parent(a[1][0]) for a in G.guard_atoms(fb, bb2, prog))
+                    uses.append(("assign", "under parent is None" if g else "unguarded", g, sp2))
+        good = [u for u in uses if u[2]]
+        bad = [u for u in uses if not u[2] and u[0] == "combinator" and u[1] in ("unwrap_or", "unwrap_or_else", "map_or", "map_or_else", "or", "or_else", "unwrap_or_default")]
+        o.check(bool(good) and not bad, "begin_block|fallback-parent-hash", "GENESIS_BLOCK_HASH is used only as the alternative of the parent's own block hash (combinator on the parent option, or under parent == None)", b.span,
+                {"uses": [u[:3] for u in uses]})
 
     if run.tier == "thorough":
         witness(run, "O20.1w")
